@@ -403,6 +403,133 @@ Proof.
   destruct (last_In R xs x0) as [E|E]; [lra|]. specialize (H0 _ E). lra.
 Qed.
 
+(* ================================================================ second-order quadrature error *)
+(* bounded derivative => Lipschitz *)
+Lemma lipschitz_of_bounded_derivative : forall (f f' : R -> R) (K a b : R),
+  (forall x, a <= x <= b -> is_derive f x (f' x)) ->
+  (forall x, a <= x <= b -> Rabs (f' x) <= K) ->
+  lipschitz_on f K a b.
+Proof.
+  intros f f' K a b Hd Hb u v Hu Hv.
+  destruct (MVT_gen f v u f') as [c [Hc E]].
+  - intros x Hx. apply Hd. unfold Rmin, Rmax in Hx. destruct (Rle_dec v u); lra.
+  - intros x Hx. apply continuity_pt_filterlim. apply (ex_derive_continuous f x). exists (f' x). apply Hd.
+    unfold Rmin, Rmax in Hx. destruct (Rle_dec v u); lra.
+  - rewrite E, Rabs_mult. apply Rmult_le_compat_r; [apply Rabs_pos|]. apply Hb.
+    unfold Rmin, Rmax in Hc. destruct (Rle_dec v u); lra.
+Qed.
+
+Lemma trapz_cell_error_c2 : forall (g g' : R -> R) (K a b : R), 0 <= K -> a <= b ->
+  (forall x, a <= x <= b -> is_derive g x (g' x)) ->
+  lipschitz_on g' K a b ->
+  Rabs (RInt g a b - (b - a) * (g b + g a) / 2) <= K * (b - a)^3 / 12.
+Proof.
+  intros g g' K a b HK Hab Hd HL.
+  set (c := (a + b) / 2). set (d := g' c).
+  set (q := fun t => (t - c) * (g' (clamp a b t) - d)).
+  assert (Hc : a <= c <= b) by (unfold c; lra).
+  assert (Cg : forall x, a <= x <= b -> continuous g x).
+  { intros x Hx. apply (ex_derive_continuous g x). exists (g' x). apply Hd; exact Hx. }
+  assert (Cq : forall x, continuous q x).
+  { intro x. unfold q.
+    apply (continuous_mult (K:=R_AbsRing) (fun t => t - c) (fun t => g' (clamp a b t) - d)).
+    - apply (continuous_minus (V:=R_NormedModule) (fun t => t) (fun _ => c)); [apply continuous_id|apply continuous_const].
+    - apply (continuous_minus (V:=R_NormedModule) (fun t => g' (clamp a b t)) (fun _ => d));
+        [apply (lipschitz_clamped_continuous g' K a b HK Hab HL)|apply continuous_const]. }
+  assert (Eg : ex_RInt g a b).
+  { apply (ex_RInt_continuous (V:=R_CompleteNormedModule)). intros z Hz. rewrite Rmin_left, Rmax_right in Hz by lra. apply Cg; lra. }
+  assert (Eq : ex_RInt q a b).
+  { apply (ex_RInt_continuous (V:=R_CompleteNormedModule)). intros z _. apply Cq. }
+  assert (HI : is_RInt (fun t => plus (g t) (q t)) a b ((b - a) * (g b + g a) / 2)).
+  { replace ((b - a) * (g b + g a) / 2)
+      with (minus ((fun t => (t - c) * g t - d * (t - c)^2 / 2) b) ((fun t => (t - c) * g t - d * (t - c)^2 / 2) a))
+      by (unfold minus, plus, opp; simpl; unfold c; field).
+    apply (is_RInt_derive (fun t => (t - c) * g t - d * (t - c)^2 / 2) (fun t => plus (g t) (q t))).
+    - intros x Hx. rewrite Rmin_left, Rmax_right in Hx by lra.
+      unfold q. rewrite clamp_id by lra. auto_derive.
+      + exists (g' x); exact (Hd x Hx).
+      + assert (E : Derive (fun x0 : R => g x0) x = g' x) by (apply is_derive_unique; exact (Hd x Hx)).
+        rewrite E. change (plus (g x) ((x - c) * (g' x - d))) with (g x + (x - c) * (g' x - d)). field.
+    - intros x Hx. rewrite Rmin_left, Rmax_right in Hx by lra.
+      apply (continuous_plus (V:=R_NormedModule) g q); [apply Cg; lra|apply Cq]. }
+  pose proof (is_RInt_unique (fun t => plus (g t) (q t)) _ _ _ HI) as HU.
+  pose proof (RInt_plus (V:=R_CompleteNormedModule) g q a b Eg Eq) as HP.
+  assert (HU' : RInt g a b + RInt q a b = (b - a) * (g b + g a) / 2) by (rewrite <- HU; symmetry; exact HP).
+  replace (RInt g a b - (b - a) * (g b + g a) / 2) with (- RInt q a b) by lra.
+  rewrite Rabs_Ropp.
+  assert (HS : is_RInt (fun t => K * (t - c)^2) a b (K * (b - a)^3 / 12)).
+  { replace (K * (b - a)^3 / 12)
+      with (minus ((fun t => K * (t - c)^3 / 3) b) ((fun t => K * (t - c)^3 / 3) a))
+      by (unfold minus, plus, opp; simpl; unfold c; field).
+    apply (is_RInt_derive (fun t => K * (t - c)^3 / 3) (fun t => K * (t - c)^2)).
+    - intros x _. auto_derive; [exact I|simpl; field].
+    - intros x _. apply (ex_derive_continuous (fun t => K * (t - c)^2)). auto_derive. exact I. }
+  assert (HSn : is_RInt (fun t => opp (K * (t - c)^2)) a b (opp (K * (b - a)^3 / 12))).
+  { apply (is_RInt_opp (V:=R_NormedModule)). exact HS. }
+  assert (Hq : forall t, a < t < b -> - (K * (t - c)^2) <= q t <= K * (t - c)^2).
+  { intros t Ht. unfold q. rewrite clamp_id by lra.
+    pose proof (HL t c ltac:(lra) Hc) as H. fold d in H.
+    apply Rabs_le_between. rewrite Rabs_mult.
+    replace (K * (t - c)^2) with (Rabs (t - c) * (K * Rabs (t - c))).
+    - apply Rmult_le_compat_l; [apply Rabs_pos|exact H].
+    - rewrite <- (pow2_abs (t - c)). ring. }
+  apply Rabs_le_between. split.
+  - replace (- (K * (b - a)^3 / 12)) with (RInt (fun t => opp (K * (t - c)^2)) a b) by (apply is_RInt_unique; exact HSn).
+    apply RInt_le; [exact Hab|eexists; exact HSn|exact Eq|]. intros t Ht. apply (Hq t Ht).
+  - replace (K * (b - a)^3 / 12) with (RInt (fun t => K * (t - c)^2) a b) by (apply is_RInt_unique; exact HS).
+    apply RInt_le; [exact Hab|exact Eq|eexists; exact HS|]. intros t Ht. apply (Hq t Ht).
+Qed.
+
+Lemma derivable_ex_RInt : forall (g g' : R -> R) a b, a <= b ->
+  (forall x, a <= x <= b -> is_derive g x (g' x)) -> ex_RInt g a b.
+Proof.
+  intros g g' a b Hab Hd. apply (ex_RInt_continuous (V:=R_CompleteNormedModule)). intros z Hz.
+  rewrite Rmin_left, Rmax_right in Hz by lra. apply (ex_derive_continuous g z). exists (g' z). apply Hd. exact Hz.
+Qed.
+
+(* second-order bound: g differentiable with K-Lipschitz derivative (e.g. g C^2 with |g''| <= K) *)
+Theorem trapz_error_c2 : forall (g g' : R -> R) K (xs : list R) x0,
+  0 <= K -> StronglySorted Rle (x0 :: xs) ->
+  (forall x, x0 <= x <= last xs x0 -> is_derive g x (g' x)) ->
+  lipschitz_on g' K x0 (last xs x0) ->
+  Rabs (RInt g x0 (last xs x0) - trapzf g (x0 :: xs))
+    <= K * (@max_cell RFld (x0 :: xs))^2 * (last xs x0 - x0) / 12.
+Proof.
+  intros g g' K xs. induction xs as [|x1 r IH]; intros x0 HK Hs Hd Hg.
+  - simpl last. rewrite RInt_point, trapzf_single. unfold zero; simpl. rewrite Rminus_0_r, Rabs_R0. lra.
+  - inversion Hs as [|? ? Hs' H0]; subst. rewrite Forall_forall in H0.
+    rewrite last_cons in *. set (xn := last r x1) in *.
+    assert (H01 : x0 <= x1) by (apply H0; left; reflexivity).
+    assert (H1n : x1 <= xn).
+    { inversion Hs' as [|? ? _ H1]; subst. rewrite Forall_forall in H1.
+      destruct (last_In R r x1) as [E|E]; [fold xn in E; lra|apply H1; exact E]. }
+    assert (Hg0 : lipschitz_on g' K x0 x1) by (eapply lipschitz_on_sub; [| |exact Hg]; lra).
+    assert (Hg1 : lipschitz_on g' K x1 xn) by (eapply lipschitz_on_sub; [| |exact Hg]; lra).
+    assert (Hd0 : forall x, x0 <= x <= x1 -> is_derive g x (g' x)) by (intros x Hx; apply Hd; lra).
+    assert (Hd1 : forall x, x1 <= x <= xn -> is_derive g x (g' x)) by (intros x Hx; apply Hd; lra).
+    specialize (IH x1 HK Hs' Hd1 Hg1). fold xn in IH.
+    pose proof (trapz_cell_error_c2 g g' K x0 x1 HK H01 Hd0 Hg0) as Hc.
+    rewrite <- (RInt_Chasles g x0 x1 xn) by (eapply derivable_ex_RInt; eauto).
+    rewrite trapzf_cons2, max_cell_cons2.
+    change (plus (RInt g x0 x1) (RInt g x1 xn)) with (RInt g x0 x1 + RInt g x1 xn).
+    set (h' := (@max_cell RFld (x1 :: r) : R)) in *. set (h := Rmax (x1 - x0) h').
+    assert (Hh1 : x1 - x0 <= h) by apply Rmax_l. assert (Hh2 : h' <= h) by apply Rmax_r.
+    assert (Hh' : 0 <= h') by apply max_cell_nonneg.
+    replace (RInt g x0 x1 + RInt g x1 xn - ((x1 - x0) * (g x1 + g x0) / 2 + trapzf g (x1 :: r)))
+      with ((RInt g x0 x1 - (x1 - x0) * (g x1 + g x0) / 2) + (RInt g x1 xn - trapzf g (x1 :: r))) by lra.
+    eapply Rle_trans; [apply Rabs_triang|].
+    assert (S1 : (x1 - x0)^2 <= h^2) by (apply pow_incr; lra).
+    assert (S2 : h'^2 <= h^2) by (apply pow_incr; lra).
+    assert (B1 : K * (x1 - x0) ^ 3 / 12 <= K * h^2 * (x1 - x0) / 12).
+    { replace (K * (x1 - x0)^3 / 12) with (K * (x1 - x0)^2 * (x1 - x0) / 12) by (simpl; lra).
+      assert (K * (x1 - x0)^2 * (x1 - x0) <= K * h^2 * (x1 - x0)); [|lra].
+      apply Rmult_le_compat_r; [lra|]. apply Rmult_le_compat_l; [exact HK|exact S1]. }
+    assert (B2 : K * h'^2 * (xn - x1) / 12 <= K * h^2 * (xn - x1) / 12).
+    { assert (K * h'^2 * (xn - x1) <= K * h^2 * (xn - x1)); [|lra].
+      apply Rmult_le_compat_r; [lra|]. apply Rmult_le_compat_l; [exact HK|exact S2]. }
+    lra.
+Qed.
+
 (* ================================================================ what get_pred returns at a data point *)
 Lemma strict_to_Rle : forall xs : list R, StronglySorted (@flt RFld) xs -> StronglySorted Rle xs.
 Proof.
@@ -481,36 +608,42 @@ Proof.
   exists k, t. split; [exact Hk|]. split; [exact Ht1|]. split; [rewrite Ht2; exact Ek|]. split.
   - rewrite <- Ht1. apply StronglySorted_firstn. apply strict_to_Rle. exact Hs.
   - rewrite (Hon 0 i Hi). change (fmul RFld) with Rmult. f_equal.
-    unfold take_mask. rewrite (nth_indep _ 0 ((fun k => nth k cum 0) 0%nat)) by (rewrite map_length; lia).
-    rewrite (map_nth (fun k => nth k cum 0) m 0%nat i). fold k. unfold cum.
+    rewrite (take_mask_nth (F:=RFld) 0 cum m i) by (rewrite Hlen; exact Hi). fold k. unfold cum.
     rewrite integrand_values_map. rewrite cumtrapz_nth; [|rewrite map_length; reflexivity|exact Hk].
-    rewrite firstn_map_comm, Ht1. reflexivity.
+    rewrite firstn_map_comm. unfold trapzf. rewrite <- Ht1. reflexivity.
 Qed.
 
-(* dL at datum i equals z_i * integral_1^{z_i} g up to z_i * L * h * (z_i - 1) / 2, h the largest grid cell *)
-Theorem dL_error_bound : forall (zs : list R) (h2 : h2val RFld) L zmax,
-  zs <> [] -> (forall z, In z zs -> 1 <= z <= zmax) -> 0 <= L ->
-  lipschitz_on (integrand_fun h2) L 1 zmax ->
+(* dL at datum i is z_i * T_i where T_i is within the first-order bound L*h*(z_i-1)/2 (g L-Lipschitz on [1,z_i])
+   and within the second-order bound K*h^2*(z_i-1)/12 (g' K-Lipschitz on [1,z_i]) of the integral; h = largest grid cell *)
+Theorem dL_error_bound : forall (zs : list R) (h2 : h2val RFld),
+  zs <> [] -> (forall z, In z zs -> 1 <= z) ->
   exists xs out, grid p zs = Some xs /\
     snd (get_pred_dl p cache_empty zs h2) = Some out /\ length out = length zs /\
     forall i, (i < length zs)%nat ->
       exists Ti, nth i out 0 = Ti * nth i zs 0 /\
-        Rabs (RInt (integrand_fun h2) 1 (nth i zs 0) - Ti)
-          <= L * @max_cell RFld xs * (nth i zs 0 - 1) / 2.
+        (forall L, 0 <= L -> lipschitz_on (integrand_fun h2) L 1 (nth i zs 0) ->
+           Rabs (RInt (integrand_fun h2) 1 (nth i zs 0) - Ti) <= L * @max_cell RFld xs * (nth i zs 0 - 1) / 2) /\
+        (forall (g' : R -> R) K, 0 <= K ->
+           (forall x, 1 <= x <= nth i zs 0 -> is_derive (integrand_fun h2) x (g' x)) ->
+           lipschitz_on g' K 1 (nth i zs 0) ->
+           Rabs (RInt (integrand_fun h2) 1 (nth i zs 0) - Ti) <= K * (@max_cell RFld xs)^2 * (nth i zs 0 - 1) / 12).
 Proof.
-  intros zs h2 L zmax Hne Hz HL Hg.
-  destruct (cumtrapz_at_mask zs h2 Hne (fun z Hin => proj1 (Hz z Hin))) as [xs [out [Hx [Ho [Hl Hi]]]]].
+  intros zs h2 Hne Hz.
+  destruct (cumtrapz_at_mask zs h2 Hne Hz) as [xs [out [Hx [Ho [Hl Hi]]]]].
   exists xs, out. split; [exact Hx|]. split; [exact Ho|]. split; [exact Hl|].
   intros i Hlt. destruct (Hi i Hlt) as [k [t [Hk [Ht1 [Ht2 [Hs Hv]]]]]].
   exists (trapzf (integrand_fun h2) (1 :: t)). split; [exact Hv|].
-  assert (Hzi : 1 <= nth i zs 0 <= zmax) by (apply Hz; apply nth_In; exact Hlt).
-  rewrite <- Ht2.
-  eapply Rle_trans; [apply trapz_error_lipschitz; [exact HL|exact Hs|]|].
-  - rewrite Ht2. eapply lipschitz_on_sub; [| |exact Hg]; lra.
-  - rewrite <- Ht1. rewrite Ht2.
-    assert (Hm : @max_cell RFld (firstn (S k) xs) <= @max_cell RFld xs) by apply max_cell_firstn.
-    assert (L * @max_cell RFld (firstn (S k) xs) * (nth i zs 0 - 1) <= L * @max_cell RFld xs * (nth i zs 0 - 1)); [|lra].
+  assert (Hzi : 1 <= nth i zs 0) by (apply Hz; apply nth_In; exact Hlt).
+  assert (Hm : @max_cell RFld (1 :: t) <= @max_cell RFld xs) by (rewrite <- Ht1; apply max_cell_firstn).
+  assert (Hm0 : 0 <= @max_cell RFld (1 :: t)) by apply max_cell_nonneg.
+  rewrite <- Ht2. split.
+  - intros L HL Hg. eapply Rle_trans; [apply trapz_error_lipschitz; [exact HL|exact Hs|exact Hg]|].
+    assert (L * @max_cell RFld (1 :: t) * (last t 1 - 1) <= L * @max_cell RFld xs * (last t 1 - 1)); [|lra].
     apply Rmult_le_compat_r; [lra|]. apply Rmult_le_compat_l; [exact HL|exact Hm].
+  - intros g' K HK Hd Hg. eapply Rle_trans; [apply (trapz_error_c2 _ g'); [exact HK|exact Hs|exact Hd|exact Hg]|].
+    assert (S : (@max_cell RFld (1 :: t))^2 <= (@max_cell RFld xs)^2) by (apply pow_incr; split; [exact Hm0|exact Hm]).
+    assert (K * (@max_cell RFld (1 :: t))^2 * (last t 1 - 1) <= K * (@max_cell RFld xs)^2 * (last t 1 - 1)); [|lra].
+    apply Rmult_le_compat_r; [lra|]. apply Rmult_le_compat_l; [exact HK|exact S].
 Qed.
 
 End GetPred.
@@ -551,7 +684,7 @@ Theorem mu_error_bound : forall c z I T eps,
 Proof.
   intros c z I T eps Hz He HI HT. unfold mu_of, log10.
   assert (Hln10 : 0 < ln 10) by (rewrite <- ln_1; apply ln_increasing; lra).
-  assert (HT' : I - eps <= T) by (apply Rabs_le_inv in HT; lra).
+  assert (HT' : I - eps <= T) by (apply Rabs_le_between in HT; lra).
   replace (5 * (ln (T * z) / ln 10) + c - (5 * (ln (z * I) / ln 10) + c))
     with (5 / ln 10 * (ln (T * z) - ln (z * I))) by (field; lra).
   rewrite Rabs_mult. rewrite (Rabs_pos_eq (5 / ln 10)) by (apply Rlt_le, Rdiv_lt_0_compat; lra).
@@ -573,6 +706,13 @@ Proof.
   apply (is_RInt_derive Fa g); intros x Hx; rewrite Rmin_left, Rmax_right in Hx by exact Hz; [apply Hd|apply Hc]; exact Hx.
 Qed.
 
+Lemma map_nth_lt : forall (A B : Type) (f : A -> B) (l : list A) i (d : A) (d' : B), (i < length l)%nat ->
+  nth i (map f l) d' = f (nth i l d).
+Proof.
+  intros A B f l. induction l as [|x r IH]; intros i d d' Hi; [simpl in Hi; lia|].
+  destruct i as [|i]; simpl; [reflexivity|]. apply IH. simpl in Hi. lia.
+Qed.
+
 Theorem integrated_pred_nth : forall (Fa g : R -> R) (zs : list R) i, (i < length zs)%nat ->
   1 <= nth i zs 0 ->
   (forall x, 1 <= x <= nth i zs 0 -> is_derive Fa x (g x)) ->
@@ -580,8 +720,66 @@ Theorem integrated_pred_nth : forall (Fa g : R -> R) (zs : list R) i, (i < lengt
   nth i (@get_pred_dl_integrated RFld Fa zs) 0 = RInt g 1 (nth i zs 0) * nth i zs 0.
 Proof.
   intros Fa g zs i Hi Hz Hd Hc. unfold get_pred_dl_integrated.
-  rewrite (nth_indep _ 0 ((fun z => fmul RFld (fsub RFld (Fa z) (Fa (f1 RFld))) z) 0)) by (rewrite map_length; exact Hi).
-  rewrite (map_nth (fun z => fmul RFld (fsub RFld (Fa z) (Fa (f1 RFld))) z) zs 0 i).
+  etransitivity; [exact (map_nth_lt R R (fun z => fmul RFld (fsub RFld (Fa z) (Fa (f1 RFld))) z) zs i 0 0 Hi)|].
   change (fmul RFld) with Rmult. change (fsub RFld) with Rminus. change (f1 RFld) with 1.
   rewrite (integrated_path_exact Fa g (nth i zs 0) Hz Hd Hc). reflexivity.
+Qed.
+
+(* ================================================================ the property, numeric path *)
+(* On a fresh (or cleared) instance, for data 1 <= z_i (any order, repeats allowed), g = 1/sqrt(H^2), I_i = RInt g 1 z_i and
+   h = the largest cell of the grid built by the call:  the value returned for datum i is dL_i = T_i * z_i with
+     |I_i - T_i| <= L*h*(z_i-1)/2        if g  is L-Lipschitz on [1,z_i],
+     |I_i - T_i| <= K*h^2*(z_i-1)/12     if g' is K-Lipschitz on [1,z_i],
+   and whenever |I_i - T_i| <= eps < I_i:  |5 log10(dL_i) + c - (5 log10(z_i * I_i) + c)| <= (5/ln 10) * eps / (I_i - eps). *)
+Theorem mu_prediction_bound : forall (p : params RFld) (zs : list R) (h2 : h2val RFld) (c : R),
+  0 < delta_z p -> (1 <= min_nz p)%nat ->
+  zs <> [] -> (forall z, In z zs -> 1 <= z) ->
+  exists xs out, grid p zs = Some xs /\
+    snd (get_pred_dl p cache_empty zs h2) = Some out /\ length out = length zs /\
+    forall i, (i < length zs)%nat ->
+      let z := nth i zs 0 in
+      let g := integrand_fun h2 in
+      let I := RInt g 1 z in
+      let h := @max_cell RFld xs in
+      exists Ti, nth i out 0 = Ti * z /\
+        (forall L, 0 <= L -> lipschitz_on g L 1 z -> Rabs (I - Ti) <= L * h * (z - 1) / 2) /\
+        (forall (g' : R -> R) K, 0 <= K -> (forall x, 1 <= x <= z -> is_derive g x (g' x)) -> lipschitz_on g' K 1 z ->
+           Rabs (I - Ti) <= K * h^2 * (z - 1) / 12) /\
+        (forall eps, 0 <= eps -> eps < I -> Rabs (I - Ti) <= eps ->
+           Rabs (mu_of c (nth i out 0) - mu_of c (z * I)) <= 5 / ln 10 * (eps / (I - eps))).
+Proof.
+  intros p zs h2 c Hd Hn Hne Hz.
+  destruct (dL_error_bound p Hd Hn zs h2 Hne Hz) as [xs [out [Hx [Ho [Hl Hi]]]]].
+  exists xs, out. split; [exact Hx|]. split; [exact Ho|]. split; [exact Hl|].
+  intros i Hlt z g I h. destruct (Hi i Hlt) as [Ti [Hv [H1 H2]]].
+  exists Ti. split; [exact Hv|]. split; [exact H1|]. split; [exact H2|].
+  intros eps He HI Hb. rewrite Hv.
+  assert (Hz1 : 1 <= z) by (apply Hz; apply nth_In; exact Hlt).
+  apply mu_error_bound; [lra|exact He|exact HI|exact Hb].
+Qed.
+
+(* analytic path versus numeric path at datum i: the analytic value is exactly I_i * z_i, the numeric one T_i * z_i
+   with T_i within both quadrature bounds of I_i *)
+Theorem analytic_vs_numeric : forall (p : params RFld) (zs : list R) (hh : R -> R) (Fa : R -> R),
+  0 < delta_z p -> (1 <= min_nz p)%nat ->
+  zs <> [] -> (forall z, In z zs -> 1 <= z) ->
+  exists xs out, grid p zs = Some xs /\
+    snd (get_pred_dl p cache_empty zs (@H2vector RFld hh)) = Some out /\ length out = length zs /\
+    forall i, (i < length zs)%nat ->
+      let z := nth i zs 0 in
+      let g := fun x => / sqrt (hh x) in
+      let h := @max_cell RFld xs in
+      (forall x, 1 <= x <= z -> is_derive Fa x (g x)) -> (forall x, 1 <= x <= z -> continuous g x) ->
+      exists Ti, nth i out 0 = Ti * z /\
+        nth i (@get_pred_dl_integrated RFld Fa zs) 0 = RInt g 1 z * z /\
+        (forall L, 0 <= L -> lipschitz_on g L 1 z -> Rabs (RInt g 1 z - Ti) <= L * h * (z - 1) / 2) /\
+        (forall (g' : R -> R) K, 0 <= K -> (forall x, 1 <= x <= z -> is_derive g x (g' x)) -> lipschitz_on g' K 1 z ->
+           Rabs (RInt g 1 z - Ti) <= K * h^2 * (z - 1) / 12).
+Proof.
+  intros p zs hh Fa Hd Hn Hne Hz.
+  destruct (dL_error_bound p Hd Hn zs (@H2vector RFld hh) Hne Hz) as [xs [out [Hx [Ho [Hl Hi]]]]].
+  exists xs, out. split; [exact Hx|]. split; [exact Ho|]. split; [exact Hl|].
+  intros i Hlt z g h HF Hc. destruct (Hi i Hlt) as [Ti [Hv [H1 H2]]].
+  exists Ti. split; [exact Hv|]. split; [|split; [exact H1|exact H2]].
+  apply (integrated_pred_nth Fa g zs i Hlt); [apply Hz; apply nth_In; exact Hlt|exact HF|exact Hc].
 Qed.
